@@ -47,6 +47,28 @@ def double_restart_family():
                 yield {'names': names, 'phens': gc.CONFLICT, 'cache': 1000, 'ops': ops}
 
 
+def downtime_family():
+    """the lost instance stays down for a while: the survivor's sends to it are refused and pile up as a backlog (progress,
+    a completion or halt of a run, the start of the next run of a singleton pattern); the instance comes back, gets
+    the snapshot, and the survivor goes on for longer than every retry interval (a leftover of the backlog sent after the
+    snapshot would tell the restarted instance about the past).  With and without finished-run memory."""
+    sing3 = gc.SING
+    for names in (['A', 'B'], ['A', 'B', 'C']):
+        for phens, fin in ((sing3, ['in A 1', 'in A 2']), (gc.SING2, ['in A 1', 'in A 2']), (gc.SING2, ['in A 9']),
+                           (gc.CONFLICT, ['in A 1', 'in A 2', 'in A 3']), (gc.CONFLICT, ['in A 9'])):
+            for cache in (0, 1000):
+                for nxt in (['in A 0'], ['in A 0', 'in A 1'], []):
+                    for wait in (0, 6, 31):
+                        ops = ['in A 0', 'sync', 'crash B']
+                        for o in fin:
+                            ops += [o, 'pass A'] + (['del A C'] if 'C' in names else [])
+                        for o in nxt:
+                            ops += [o, 'pass A'] + (['del A C'] if 'C' in names else [])
+                        ops += ([f'tick {wait}'] if wait else []) + ['restart B', 'pass B', 'del B A'] + (['del B C'] if 'C' in names else [])
+                        ops += ['pass A', 'del A B', 'del A B', 'tick 6', 'pass A', 'del A B', 'del A B', 'tick 6', 'pass A', 'del A B', 'heal']
+                        yield {'names': names, 'phens': phens, 'cache': cache, 'ops': ops}
+
+
 def crash_schedule(rng):
     sc = gc.scenario(rng, n_ops=rng.randint(10, 36))
     ops = sc['ops'][:-1]
@@ -87,6 +109,9 @@ def scenarios(ctx: Ctx, res: Result):
         yield sc
     for sc in double_restart_family():
         res.count('double_restart_family')
+        yield sc
+    for sc in downtime_family():
+        res.count('downtime_family')
         yield sc
     for _ in range(2500 if ctx.thorough else 280):
         res.count('random_crash_point')
